@@ -155,9 +155,7 @@ def switchTree (t : CSem.Ty) (cases : List (Nat × String)) : Tree.T :=
 
 /-- `c->body` of the tree node with key `k`. -/
 def caseLabel (t : CSem.Ty) (cases : List (Nat × String)) (dl : String) (k : Nat) : String :=
-  match cases.find? fun c => Tree.caseKey t.size (t.signed true) c.1 == k with
-  | some c => c.2
-  | none => dl
+  ((cases.find? fun c => Tree.caseKey t.size (t.signed true) c.1 == k).map (·.2)).getD dl
 
 /-- `casesearch(f, class, v, c, defaultlabel)`: the comparison ladder for the tree `c`; `w`: class `w`.
     Every leaf ends with `funcjmp(defaultlabel)`, which stays pending until the next `funclabel`. -/
